@@ -49,6 +49,17 @@ def parse(text):
         for bm in re.finditer(r"^    (bb\d+)(?: \(cleanup\))?: \{\n(.*?)^    \}", body, re.S | re.M):
             f.blocks[bm.group(1)] = [l.strip().rstrip(";") for l in bm.group(2).split("\n") if l.strip()]
         fns[f.name] = f
+    for m in re.finditer(r"^const (.+?::promoted\[\d+\]): (.*?) = \{\n(.*?)^\}", text, re.S | re.M):
+        f = Fn()
+        f.name, f.ptext, f.ret, body = m.group(1), "", m.group(2), m.group(3)
+        f.types = {0: f.ret}
+        for lm in re.finditer(r"^\s*let (?:mut )?_(\d+): (.*?);", body, re.M):
+            f.types[int(lm.group(1))] = lm.group(2).strip()
+        f.nparams = 0
+        f.blocks = {}
+        for bm in re.finditer(r"^    (bb\d+)(?: \(cleanup\))?: \{\n(.*?)^    \}", body, re.S | re.M):
+            f.blocks[bm.group(1)] = [l.strip().rstrip(";") for l in bm.group(2).split("\n") if l.strip()]
+        fns[f.name] = f
     return fns
 
 
@@ -69,6 +80,7 @@ class Machine:
         self.contracts = contracts or {}
         self.havoc = havoc          # unknown callees return an unconstrained opaque value (over-approximation)
         self.nfresh = 0
+        self.current = []           # stack of function names being executed (to resolve promoted constants)
         self.panics = []          # list of (condition under which a panic/assert failure happens, message)
         self.steps = 0
 
@@ -88,6 +100,11 @@ class Machine:
             return BitVecVal(int(m.group(1)), INT[m.group(2)][0])
         if c in ("true", "false"):
             return BoolVal(c == "true")
+        mp = re.search(r"promoted\[(\d+)\]$", c)
+        if mp and self.current:
+            pname = self.current[-1] + "::promoted[%s]" % mp.group(1)
+            if pname in self.fns:
+                return self.call(pname, [])
         m = re.fullmatch(r"f64::(MAX|MIN)", c)
         if m:
             return FPVal(1.7976931348623157e308 if m.group(1) == "MAX" else -1.7976931348623157e308, Float64())
@@ -318,7 +335,11 @@ class Machine:
         """returns the merged return value of fn `name`"""
         f = self.fns[name]
         fr = {i + 1: a for i, a in enumerate(args)}
-        return self.exec(f, fr, "bb0", pc if pc is not None else BoolVal(True))
+        self.current.append(name)
+        try:
+            return self.exec(f, fr, "bb0", pc if pc is not None else BoolVal(True))
+        finally:
+            self.current.pop()
 
     def exec(self, f, fr, bb, pc):
         while True:
@@ -485,8 +506,19 @@ class Machine:
         return out
 
     def ite(self, c, a, b):
+        if not isinstance(a, dict) and not isinstance(b, dict) and hasattr(a, "get") and hasattr(b, "get"):
+            va, vb = a.get(), b.get()          # references: merge what they point to (read-only use)
+            merged = self.ite(c, va, vb)
+
+            class MRef:
+                def get(self_inner):
+                    return merged
+            return MRef()
         if isinstance(a, dict) and isinstance(b, dict):
-            return {k: self.ite(c, a[k], b[k]) if k in b else a[k] for k in a}
+            out = {}
+            for k in list(a.keys()) + [k for k in b.keys() if k not in a]:
+                out[k] = self.ite(c, a[k], b[k]) if (k in a and k in b) else (a[k] if k in a else b[k])
+            return out
         if isinstance(a, (str, tuple)) or isinstance(b, (str, tuple)):
             return a if a == b else ("merge", c, a, b)
         return If(c, a, b)
